@@ -6,7 +6,12 @@ tie:            translate/scripts.py regenerates the commit/raise script of ever
                 exceptions enabled; the attributes of the object that changed must be fields the script may write
                 (before a raise: raise_fields, on success: normal_fields), which checks the reviewed tables
 oracle/search:  independent of the model: if the assignment raised a DOM exception, the public fingerprint (owner sheet
-                cssText, wellformed/valid flags, attribute values) must be unchanged
+                cssText, wellformed/valid flags, specificity/element, every public attribute) must be unchanged.
+                Lenient mode (log.raiseExceptions = False): every text that is rejected in raising mode is assigned
+                again without exceptions, to the object (state A) and to a second object of the same kind that was first
+                given another valid text through the same attribute (state B).  A setter either rejects (A unchanged) or
+                commits a state determined by the text (A and B end equal); anything else is a mix of old and new state
+                (e.g. old selector text with the specificity of the rejected text) and is a violation.
 """
 import json
 import re
@@ -210,7 +215,12 @@ def public_fp(sheet, obj, attrs):
             fp["sheet.cssText"] = sheet.cssText
         except Exception as e:  # noqa -- a sheet that can no longer be serialised has certainly changed
             fp["sheet.cssText"] = "<%s: %s>" % (type(e).__name__, e)
-    for a in sorted(set(attrs) | {"wellformed", "valid", "cssText", "selectorText", "mediaText", "specificity", "length"}):
+    names = set(attrs) | {"wellformed", "valid", "cssText", "selectorText", "mediaText", "specificity", "length", "element"}
+    for k in type(obj).__mro__:
+        for n, d in vars(k).items():
+            if isinstance(d, property) and not n.startswith("_") and n not in FP_SKIP:
+                names.add(n)
+    for a in sorted(names):
         try:
             v = getattr(obj, a)
         except Exception as e:  # noqa
@@ -219,6 +229,132 @@ def public_fp(sheet, obj, attrs):
             v = getattr(v, "cssText", None) or getattr(v, "mediaText", None) or getattr(v, "selectorText", None) or type(v).__name__
         fp[a] = v
     return fp
+
+
+# own errors after which the setter commits by design: script -> message prefixes
+LENIENT_BY_DESIGN = {
+    # the parser keeps an unknown priority (`color: red !foo` is serialised again, valid = False)
+    "Property.priority": ("Property: No CSS priority value",),
+    # a colour function with a wrong mix of numbers/percentages is reported and kept (like any invalid value)
+    "ColorValue.cssText": ("ColorValue has invalid",),
+    # recovering containers: the error concerns one child (declaration / rule), which is dropped; the rest is kept (C04)
+    "CSSStyleDeclaration.cssText": ("CSSStyleDeclaration:",),
+    "CSSStyleSheet.cssText": ("CSSStylesheet:", "CSSStyleSheet:"),
+    "CSSMediaRule.cssText": ("CSSMediaRule: This rule is not allowed in CSSMediaRule - ignored",
+                             "CSSMediaRule: This type of rule is not allowed here"),
+}
+# public properties that are links / derived objects / deprecated aliases, not state of the object itself
+FP_SKIP = {"parent", "parentRule", "parentStyleSheet", "parentList", "styleSheet", "seq", "cssValue", "absoluteUri",
+           "typeString", "type"}
+
+
+class _Count(object):
+    """stands in for the logger of css_parser.log: counts the messages at ERROR level and above"""
+
+    def __init__(self):
+        self.n = 0
+        self.obj = None
+        self.own = []        # messages logged by the setter of self.obj itself (not by a nested object's setter)
+
+    def error(self, msg="", *a, **k):
+        import sys
+        self.n += 1
+        f = sys._getframe(1)
+        while f is not None:
+            fn = f.f_code.co_filename
+            if not (fn.endswith("errorhandler.py") or fn.endswith("prodparser.py") or fn.endswith("c19.py")):
+                o = f.f_locals.get("self")
+                if o is not None and (type(o).__module__ or "").startswith("css_parser"):
+                    if o is self.obj:
+                        self.own.append(str(msg)[:80])
+                    return
+            f = f.f_back
+
+    critical = fatal = error
+
+    def debug(self, *a, **k):
+        pass
+
+    info = warning = warn = debug
+
+    def setLevel(self, *a):
+        pass
+
+    def getEffectiveLevel(self):
+        return 40
+
+    def addHandler(self, *a):
+        pass
+
+    removeHandler = addHandler
+
+
+def lenient_pair(kind, attr, text, attrs):
+    """the same assignment without exceptions on state A and on state B; returns a dict"""
+    import xml.dom
+    import css_parser
+    valids = (KINDS[kind][1] if kind in KINDS else DETACHED[kind][3])[attr]
+    alts = [v for v in valids if v != text]
+    out = {}
+    ends = []
+    for which in ("A", "B"):
+        sheet, obj = build(kind)
+        old = css_parser.log._log
+        cnt = _Count()
+        try:
+            css_parser.log.raiseExceptions = False
+            if which == "B":
+                if not alts:
+                    ends.append(None)
+                    continue
+                try:
+                    setattr(obj, attr, alts[-1])
+                except Exception:  # noqa
+                    pass
+            css_parser.log.setLog(cnt)
+            p0 = public_fp(sheet, obj, attrs)
+            d0 = deep_fields(obj) if which == "A" else None
+            cnt.n, cnt.own, cnt.obj = 0, [], obj
+            exc = ""
+            try:
+                setattr(obj, attr, text)
+            except xml.dom.DOMException as e:
+                exc = type(e).__name__
+            except Exception as e:  # noqa
+                exc = "!" + type(e).__name__
+            nerr = cnt.n
+            p1 = public_fp(sheet, obj, attrs)
+            if which == "A":
+                d1 = deep_fields(obj)
+                out.update(l_exc=exc, l_errors=nerr, l_own=[m for m in cnt.own if not any(
+                    m.startswith(x) for x in LENIENT_BY_DESIGN.get(script_name(obj, attr) or "", ()))],
+                    l_before=p0, l_after=p1,
+                           l_changed=sorted(k for k in set(p0) | set(p1) if p0.get(k) != p1.get(k)),
+                           l_deep=sorted(k for k in set(d0) | set(d1) if d0.get(k) != d1.get(k)))
+            else:
+                out.update(l_b_prepared=(p0 != out["l_before"]))
+            ends.append(p1)
+            if which == "A" and not out["l_changed"]:
+                ends.append(None)          # unchanged: state B is not needed
+                break
+        finally:
+            css_parser.log.setLog(old)
+            css_parser.log.raiseExceptions = True
+    a1, b1 = ends[0], ends[1]
+    out["l_unchanged"] = not out["l_changed"]
+    out["l_same_as_b"] = (b1 is not None and a1 == b1)
+    out["l_bad"] = ""
+    if out["l_changed"] and (out["l_own"] or out["l_exc"]):
+        out["l_bad"] = "the setter logged its own error (%s) and still changed the object" % (out["l_own"] or [out["l_exc"]])[0]
+    elif out["l_changed"] and not out["l_same_as_b"] and b1 is not None:
+        out["l_bad"] = "the result is a mix of old and new state (it depends on the state before)"
+    if out["l_bad"] and b1 is not None:
+        k = [k for k in out["l_changed"] if True][0]
+        out["l_detail"] = {"A_before": str(out["l_before"].get(k))[:160], "A_after": str(a1.get(k))[:160],
+                           "B_after": str(b1.get(k))[:160], "attribute": k,
+                           "A_differs_from_B_in": sorted(x for x in set(a1) | set(b1) if a1.get(x) != b1.get(x))[:8]}
+    del out["l_before"], out["l_after"]
+    return out
 
 
 def script_name(obj, attr):
@@ -246,7 +382,7 @@ def run_case_(case):
     """returns dict(raised, exc, where, pub_changed, changed(list of fields), script)"""
     import xml.dom
     import css_parser
-    kind, attr, text, ro = case
+    kind, attr, text, ro = case[:4]
     try:
         sheet, obj = build(kind)
     except Exception as e:  # noqa
@@ -276,20 +412,28 @@ def run_case_(case):
     if res["pub_changed"]:
         k = res["pub_changed"][0]
         res["before_after"] = [str(pub0.get(k))[:200], str(pub1.get(k))[:200]]
+    if raised == 1 and not ro and (len(case) < 5 or case[4]):
+        res.update(lenient_pair(kind, attr, text, attrs))
     return res
 
 
 # ----------------------------------------------------------------------------- model side
 def model_summaries(ctx):
-    req = "From CssV Require Import Base Atomic AtomicFacts Gen.Scripts AtomicHand.\nOpen Scope string_scope."
+    req = "From CssV Require Import Base Atomic AtomicFacts AtomicLenient Gen.Scripts AtomicHand.\nOpen Scope string_scope."
     out = ctx.coq_eval(req, ["map (fun p : string * script => (fst p, summary (snd p))) (all_scripts ++ hand_scripts)",
-                             "(refused_anchored, refused_extra)"])
+                             "(refused_anchored, refused_extra)",
+                             "map (fun p : string * lscript => (fst p, lsummary (snd p))) (all_lscripts ++ hand_lscripts)"])
     summ = {}
     for m in re.finditer(r'\("([^"]+)",\s*\((true|false),\s*(true|false),\s*\[([^\]]*)\],\s*\[([^\]]*)\]\)\)', out[0]):
         f = lambda x: set(re.findall(r'"([^"]+)"', x))  # noqa
         summ[m.group(1)] = {"atomic": m.group(2) == "true", "can_raise": m.group(3) == "true",
                             "raise_fields": f(m.group(4)), "normal_fields": f(m.group(5))}
     refused = re.findall(r'"([^"]+)"', out[1] or "")
+    for m in re.finditer(r'\("([^"]+)",\s*\((true|false),\s*\[([^\]]*)\],\s*\[([^\]]*)\]\)\)', out[2]):
+        if m.group(1) in summ:
+            summ[m.group(1)].update(atomic_lenient=m.group(2) == "true",
+                                    reject_fields=set(re.findall(r'"([^"]+)"', m.group(3))),
+                                    accept_fields=set(re.findall(r'"([^"]+)"', m.group(4))))
     return summ, refused
 
 
@@ -316,6 +460,19 @@ def check_case(ctx, case, r, summ, stats):
     if case[3] and r["raised"] == 0 and r["script"] and summ.get(r["script"], {}).get("can_raise") and \
             "CheckRO" in stats["ro_scripts"].get(r["script"], "CheckRO"):
         pass
+    if "l_changed" in r:
+        stats["lenient"] += 1
+        if r["l_errors"] or r["l_exc"]:
+            stats["lenient_logged"] += 1
+        if r["l_own"]:
+            stats["lenient_own_error"] += 1
+        if r["l_bad"]:
+            ctx.violation("assignment rejected without raising changed the object",
+                          {"kind": case[0], "attr": case[1], "text": case[2], "readonly": 0, "mode": "lenient",
+                           "why": r["l_bad"], "errors_logged": r["l_errors"], "changed": r["l_changed"],
+                           "detail": r.get("l_detail")},
+                          sig_text="%s lenient changed=%s" % (r.get("script") or case[0] + "." + case[1],
+                                                              ",".join(r["l_changed"])))
     m = summ.get(r["script"]) if r["script"] else None
     if m is None:
         stats["unmodelled"].add(r["script"] or "%s.%s" % (case[0], case[1]))
@@ -329,6 +486,11 @@ def check_case(ctx, case, r, summ, stats):
                 describe(case, r), r["exc"], sorted(extra), sorted(m["raise_fields"]))
         if not m["can_raise"]:
             return "%s raised %s but the script has no raising execution" % (describe(case, r), r["exc"])
+        if "l_deep" in r and "reject_fields" in m:
+            extra = set(r["l_deep"]) - (m["normal_fields"] | m["reject_fields"] | m["accept_fields"])
+            if extra:
+                return "%s without exceptions changed %s; the script writes only %s" % (
+                    describe(case, r), sorted(extra), sorted(m["normal_fields"] | m["reject_fields"]))
     elif r["raised"] == 0:
         extra = ch - m["normal_fields"]
         if extra:
@@ -353,7 +515,7 @@ def run(ctx):
     cases = corpus + gen_cases(ctx, thorough)
     results = ctx.pool_map(run_case, cases, procs=6, chunksize=64)
     stats = {"raised": 0, "accepted": 0, "crashed": 0, "compared": 0, "nontrivial": set(), "unmodelled": set(),
-             "ro_scripts": {}}
+             "ro_scripts": {}, "lenient": 0, "lenient_logged": 0, "lenient_own_error": 0}
     mism = []
     for case, r in zip(cases, results):
         d = check_case(ctx, case, r, summ, stats)
@@ -373,6 +535,9 @@ def run(ctx):
             if r.get("raised") == 1 and r.get("pub_changed"):
                 ctx.violation("rejected assignment changed the object", dict(w, changed=r["pub_changed"]),
                               sig_text=sig_of(case, r))
+            if r.get("l_bad"):
+                ctx.violation("assignment rejected without raising changed the object", dict(w, mode="lenient"),
+                              sig_text="%s lenient changed=%s" % (r.get("script"), ",".join(r["l_changed"])))
     for n in not_atomic:
         if not ctx.match_known("model verdict :: " + n + " exc= raised-in=_setHref"):
             ctx.broken("proof", "atomic " + n, "the regenerated script of %s is not atomic: it may write %s and then raise"
@@ -400,6 +565,11 @@ def run(ctx):
                         "rejected assignment changed the object :: " + sig_of(case, r)):
                     return {"kind": case[0], "attr": case[1], "text": case[2], "readonly": 0, "exception": r["exc"],
                             "changed": r["pub_changed"], "before_after": r.get("before_after")}
+                if r.get("l_bad") and not ctx.match_known(
+                        "assignment rejected without raising changed the object :: %s lenient changed=%s"
+                        % (r.get("script"), ",".join(r["l_changed"]))):
+                    return {"kind": case[0], "attr": case[1], "text": case[2], "readonly": 0, "mode": "lenient",
+                            "why": r["l_bad"], "changed": r["l_changed"], "detail": r.get("l_detail")}
         return None
 
     samples = []
@@ -416,6 +586,7 @@ def run(ctx):
                 "texts of all other kinds, undeclared prefix, trailing content); non-trivial = distinct (kind, attribute, "
                 "DOM exception class, raising function) among rejected assignments" % (len(KINDS) + len(DETACHED)),
         "rejected": stats["raised"], "accepted": stats["accepted"], "crashed_non_dom": stats["crashed"],
+        "lenient_reassignments": stats["lenient"], "lenient_with_error_logged": stats["lenient_logged"], "lenient_rejected_by_own_setter": stats["lenient_own_error"],
         "samples": samples,
         "disagreements_checked": stats["compared"],
         "setters_modelled": len(summ), "setters_not_modelled_oracle_only": sorted(x for x in stats["unmodelled"] if x),
@@ -433,8 +604,11 @@ def replay(ctx, path):
         case = (w["kind"], w["attr"], w["text"], w.get("readonly", 0))
         r = run_case(case)
         fails = r.get("raised") == 1 and bool(r.get("pub_changed"))
-        print("replay %s -> raised=%s %s changed=%s %s" % (describe(case, r), r.get("raised"), r.get("exc"),
-                                                          r.get("pub_changed"), "PROPERTY FAILS" if fails else "holds"))
+        lfails = bool(r.get("l_bad"))
+        print("replay %s -> raising mode: raised=%s %s changed=%s; lenient mode: errors=%s changed=%s mixed=%s  %s" % (
+            describe(case, r), r.get("raised"), r.get("exc"), r.get("pub_changed"), r.get("l_errors"), r.get("l_changed"),
+            lfails, "PROPERTY FAILS" if (fails or lfails) else "holds"))
+        fails = fails or lfails
         bad += fails
     return 1 if bad else 0
 
